@@ -202,7 +202,7 @@ def _lis(f1, indirect, tif, kind, a, b, c):
     import C06_logpass as H6
     from TotalDepth.LIS import ToLAS
     fpr = [2, f1, 1]
-    data, pos, kinds, model = H6._build(fpr, indirect, tif, True, None)
+    data, pos, kinds, model = H6._build(fpr, indirect, tif, True, None, 4 if (f1 + c) % 2 == 0 else 0)
     if len(_indices(kind, a, b, c, len(model))) == 0:
         return True
     if EXCL('lis_bit_tolas_slice_drops_last_frames'):
